@@ -54,6 +54,26 @@ func init() {
 		if err := x.UnmarshalText(txt); err != nil || x != v {
 			return fmt.Sprintf("FAIL MarshalText()=%q -> %v %v", txt, x, err)
 		}
+		// the value owns its text: a caller that recycles the buffer it handed to
+		// UnmarshalText (bufio.Scanner, a pooled []byte) must not change the value
+		buf := append([]byte{}, txt...)
+		var z version.Version
+		if err := z.UnmarshalText(buf); err == nil {
+			for i := range buf {
+				buf[i] = '7'
+			}
+			if z != v || z.String() != v.String() {
+				return fmt.Sprintf("FAIL the value parsed from a buffer changed when the buffer was overwritten: %v, was %v", z, v)
+			}
+		}
+		// and its own MarshalText result is a fresh slice
+		out1, _ := v.MarshalText()
+		for i := range out1 {
+			out1[i] = '7'
+		}
+		if out2, _ := v.MarshalText(); string(out2) != string(txt) {
+			return fmt.Sprintf("FAIL MarshalText results share storage: %q after overwriting the first, was %q", out2, txt)
+		}
 		js, err := json.Marshal(&v)
 		var y version.Version
 		if err != nil {
